@@ -1,4 +1,5 @@
 import Stackage.Driver.Dump
+import Stackage.Driver.Render
 import Stackage.Spec.OptLink
 
 /-!
@@ -83,7 +84,23 @@ def dumpSpec (frame : Cfg) (s : St) (n : Nat) (q : Bool) : String :=
   s!"k{frame.kind} c{frame.cap} o{opt} f{b01 s.fifo} sym:{hx s.sym} d:{hx s.delim} e:{encStr s.enc} id:{hx s.id} cat:{hx s.cat} lvl{lvl} aux:{auxStr s.aux} m{b01 frame.mtx} err:{errCls frame.err} pol:{present [frame.ppf, frame.vpf, frame.rpf, frame.eqf, frame.lss, frame.umf, frame.maf, frame.evl]} n{n} / " ++
   dumpGetters s.paren (!s.nopad) s.ronly (!s.nnest) (!s.enc.isEmpty) q s.id s.cat s.delim (levelString s.lvl) s.aux
 
-partial def optsModel (isCond : Bool) (c : Cfg) (n : Nat) (ex : Val) (calls : List (Option OptSpec.Call)) (acc : List String) : List String :=
+/-- the configuration the specification state stands for (frame = what C18 does not speak about) -/
+def specCfg (frame : Cfg) (s : St) : Cfg :=
+  let eight := b2n (frame.opt / 1 % 2 == 1) * 1 + b2n (frame.opt / 2 % 2 == 1) * 2 + b2n (frame.opt / 4 % 2 == 1) * 4
+    + b2n (frame.opt / 8 % 2 == 1) * 8 + b2n (frame.opt / 16 % 2 == 1) * 16 + b2n (frame.opt / 32 % 2 == 1) * 32
+    + b2n (frame.opt / 128 % 2 == 1) * 128 + b2n (frame.opt / 256 % 2 == 1) * 256
+  let opt := (frame.opt - eight) + b2n s.paren * 1 + b2n s.fold * 2 + b2n s.nopad * 4 + b2n s.lonce * 8 + b2n s.neg * 16 + b2n s.fwd * 32
+    + b2n s.ronly * 128 + b2n s.nnest * 256
+  { frame with opt := opt, fifo := s.fifo, sym := s.sym, ljc := s.delim, enc := s.enc, id := s.id, cat := s.cat }
+
+/-- what the settings look like in `String()` (C18: "… or reflected in String()") -/
+def strTok (isCond : Bool) (c : Cfg) (xs : List Val) (kw : Text) (op : Op) (ex : Val) (spec : Bool) : String :=
+  if isCond then s!" STR:{hx (condString closures c kw op ex)}"
+  else
+    let st : Stk := { cfg := c, xs := xs }
+    s!" STR:{hx (if spec then Grammar.canon closures st else st.String closures)}"
+
+partial def optsModel (isCond : Bool) (c : Cfg) (n : Nat) (ex : Val) (xs : List Val) (kw : Text) (op : Op) (calls : List (Option OptSpec.Call)) (acc : List String) : List String :=
   match calls with
   | [] => acc.reverse
   | none :: _ => ("BADOP" :: acc).reverse
@@ -92,15 +109,15 @@ partial def optsModel (isCond : Bool) (c : Cfg) (n : Nat) (ex : Val) (calls : Li
     if (isCond && !oc.onCond) || (!isCond && !oc.onStack) then ("BADOP" :: acc).reverse else
     let c' := c.call oc
     let d := if isCond then dumpCnd c' ex else dumpCfg c' n
-    optsModel isCond c' n ex rest (s!"- {d}" :: acc)
+    optsModel isCond c' n ex xs kw op rest (s!"- {d}{strTok isCond c' xs kw op ex false}" :: acc)
 
-partial def optsSpec (frame : Cfg) (s : St) (n : Nat) (q : Option Bool) (calls : List (Option OptSpec.Call)) (acc : List String) : List String :=
+partial def optsSpec (frame : Cfg) (s : St) (n : Nat) (q : Option Bool) (ex : Val) (xs : List Val) (kw : Text) (op : Op) (calls : List (Option OptSpec.Call)) (acc : List String) : List String :=
   match calls with
   | [] => acc.reverse
   | none :: _ => ("BADOP" :: acc).reverse
   | some sc :: rest =>
     let s' := step s sc
-    optsSpec frame s' n q rest (s!"- {dumpSpec frame s' n (q.getD s'.fifo)}" :: acc)
+    optsSpec frame s' n q ex xs kw op rest (s!"- {dumpSpec frame s' n (q.getD s'.fifo)}{strTok q.isSome (specCfg frame s') xs kw op ex true}" :: acc)
 
 /-- `opts` stream: `<receiver> | op ; op ; …` -/
 def runOpts (payload : String) : String × String × String :=
@@ -111,16 +128,16 @@ def runOpts (payload : String) : String × String × String :=
   let calls := ((opsTxt.splitOn " ; ").filter (fun o => !(words o).isEmpty)).map (fun o => parseCall (words o))
   match (parseVal (words recvTxt)).1 with
   | .stk _ c xs =>
-    let m := optsModel false c xs.length .nil calls [s!"init {dumpCfg c xs.length}"]
+    let m := optsModel false c xs.length .nil xs [] .none calls [s!"init {dumpCfg c xs.length}{strTok false c xs [] .none .nil false}"]
     let s0 := specOfCfg c
-    let s := optsSpec c s0 xs.length none calls [s!"init {dumpSpec c s0 xs.length s0.fifo}"]
+    let s := optsSpec c s0 xs.length none .nil xs [] .none calls [s!"init {dumpSpec c s0 xs.length s0.fifo}{strTok false (specCfg c s0) xs [] .none .nil true}"]
     (" ; ".intercalate m, " ; ".intercalate s, "")
-  | .cnd _ c _ _ ex =>
+  | .cnd _ c kw op ex =>
     let n := if ex.isNil then 0 else 1
     let q := Cfg.condIsFIFO ex
-    let m := optsModel true c n ex calls [s!"init {dumpCnd c ex}"]
+    let m := optsModel true c n ex [] kw op calls [s!"init {dumpCnd c ex}{strTok true c [] kw op ex false}"]
     let s0 := specOfCfg c
-    let s := optsSpec c s0 n (some q) calls [s!"init {dumpSpec c s0 n q}"]
+    let s := optsSpec c s0 n (some q) ex [] kw op calls [s!"init {dumpSpec c s0 n q}{strTok true (specCfg c s0) [] kw op ex true}"]
     (" ; ".intercalate m, " ; ".intercalate s, "")
   | _ => ("BADCASE", "BADCASE", "")
 
